@@ -1200,7 +1200,7 @@ Proof.
     change (last (x :: y :: t) (0, 0)%Q) with (last (y :: t) (0, 0)%Q). apply IH. }
   destruct (dedup None (map (pt_cell g) (x :: t))) as [|a [|b r]] eqn:E.
   - discriminate.
-  - simpl in Hh. inversion Hh. split; [reflexivity|]. rewrite <- Hlast, <- Hl. reflexivity.
+  - simpl in Hh. inversion Hh. split; [reflexivity|]. rewrite <- Hlast, <- Hl. subst a. reflexivity.
   - simpl in Hh. inversion Hh. split; [reflexivity|]. rewrite <- Hlast, <- Hl. reflexivity.
 Qed.
 
@@ -1307,4 +1307,377 @@ Proof.
           destruct (dedup None (map (pt_cell g) xs)) as [|c0 rest]; [reflexivity|].
           assert (El : 0 + Z.of_nat (List.length xs) <? 2 = true) by (apply Z.ltb_lt; lia).
           rewrite El. reflexivity. }
+Qed.
+
+(* ------------------------------------------------- loading: the three tables *)
+
+Definition kept (outs : list (option ((node * node) * segment))) : list ((node * node) * segment) :=
+  flat_map (fun o => match o with Some ks => [ks] | None => [] end) outs.
+
+Definition emplace_all (l segs : list ((node * node) * segment)) : list ((node * node) * segment) :=
+  fold_left (fun m ks => m_emplace cell_cmp (fst ks) (snd ks) m) l segs.
+
+Lemma load_records_spec : forall g hc hp rs segs,
+  load_records g hc hp rs segs =
+  match sequence (map (record_segment g hc hp) rs) with
+  | Err e => Err e
+  | Ok outs => Ok (emplace_all (kept outs) segs)
+  end.
+Proof.
+  intros g hc hp rs. induction rs as [|r t IH]; intros segs; [reflexivity|].
+  cbn [load_records map sequence].
+  destruct (record_segment g hc hp r) as [[[k s]|]|e]; cbn [bind]; [| |reflexivity].
+  - rewrite IH. destruct (sequence (map (record_segment g hc hp) t)); reflexivity.
+  - rewrite IH. destruct (sequence (map (record_segment g hc hp) t)); reflexivity.
+Qed.
+
+Lemma cell_cmp_neq : forall a b : Z * Z, a <> b -> cell_cmp a b <> Eq.
+Proof. intros a b H E. apply cell_cmp_eq in E. contradiction. Qed.
+
+(* the first kept record of a node pair is the one stored *)
+Lemma emplace_all_find : forall l segs k,
+  m_find cell_cmp k (emplace_all l segs) =
+  match m_find cell_cmp k segs with Some s => Some s | None => m_find cell_cmp k l end.
+Proof.
+  induction l as [|[k0 s0] t IH]; intros segs k.
+  - simpl. destruct (m_find cell_cmp k segs); reflexivity.
+  - cbn [emplace_all fold_left fst snd]. fold (emplace_all t (m_emplace cell_cmp k0 s0 segs)). rewrite IH.
+    destruct (cell_cmp k k0) eqn:E.
+    + apply cell_cmp_eq in E. subst k0. rewrite (m_find_emplace_same cell_cmp_eq).
+      cbn [m_find]. rewrite (proj2 (cell_cmp_eq k k) eq_refl).
+      destruct (m_find cell_cmp k segs); reflexivity.
+    + rewrite (m_find_emplace_other cell_cmp_eq); [|intro H; subst; rewrite (proj2 (cell_cmp_eq k0 k0) eq_refl) in E; discriminate].
+      cbn [m_find]. rewrite E. reflexivity.
+    + rewrite (m_find_emplace_other cell_cmp_eq); [|intro H; subst; rewrite (proj2 (cell_cmp_eq k0 k0) eq_refl) in E; discriminate].
+      cbn [m_find]. rewrite E. reflexivity.
+Qed.
+
+Lemma emplace_all_In : forall l segs x, In x (emplace_all l segs) -> In x segs \/ In x l.
+Proof.
+  induction l as [|[k0 s0] t IH]; intros segs x H; [left; exact H|].
+  cbn [emplace_all fold_left fst snd] in H. fold (emplace_all t (m_emplace cell_cmp k0 s0 segs)) in H.
+  destruct (IH _ _ H) as [H1 | H1]; [|right; right; exact H1].
+  unfold m_emplace in H1. destruct (m_find cell_cmp k0 segs); [left; exact H1|].
+  apply m_place_In in H1. destruct H1 as [H1 | H1]; [right; left; symmetry; exact H1 | left; exact H1].
+Qed.
+
+Definition adj_get (adj : list (node * (list Q * list node))) (n : node) : list Q * list node :=
+  match m_find Z.compare n adj with Some r => r | None => ([], []) end.
+
+Definition nodes_get (nodes : list (cell * list node)) (c : cell) : list node :=
+  match m_find cell_cmp c nodes with Some l => l | None => [] end.
+
+Definition seg_hd (s : segment) : cell := hd (0, 0) (sg_cells s).
+Definition seg_last (s : segment) : cell := last (sg_cells s) (0, 0).
+
+(* the (neighbour, edge probability) pairs node n receives, in the order of
+   the segment table *)
+Definition links_of (n : node) (segs : list ((node * node) * segment)) : list (node * Q) :=
+  flat_map (fun ks =>
+     (if fst (fst ks) =? n then [(snd (fst ks), sg_prob (snd ks))] else []) ++
+     (if snd (fst ks) =? n then [(fst (fst ks), sg_prob (snd ks))] else [])) segs.
+
+Lemma add_neighbour_get : forall hp x p y adj n,
+  adj_get (add_neighbour hp x p y adj) n =
+  if x =? n then (fst (adj_get adj n) ++ (if hp then [p] else []), snd (adj_get adj n) ++ [y])
+  else adj_get adj n.
+Proof.
+  intros hp x p y adj n. unfold adj_get, add_neighbour.
+  destruct (x =? n) eqn:E.
+  - apply Z.eqb_eq in E. subst x. rewrite (m_find_update_same zcmp_eq).
+    destruct (m_find Z.compare n adj) as [[ps ms]|]; destruct hp; cbn [fst snd]; try rewrite app_nil_r; reflexivity.
+  - apply Z.eqb_neq in E. rewrite (m_find_update_other zcmp_eq); [reflexivity | intro H; apply E; symmetry; exact H].
+Qed.
+
+Lemma add_neighbour_key : forall hp x p y adj n,
+  m_find Z.compare n (add_neighbour hp x p y adj) = None -> m_find Z.compare n adj = None /\ x <> n.
+Proof.
+  intros hp x p y adj n H. unfold add_neighbour in H. destruct (Z.eq_dec n x) as [-> | Hne].
+  - rewrite (m_find_update_same zcmp_eq) in H. discriminate.
+  - rewrite (m_find_update_other zcmp_eq) in H; [|exact Hne]. split; [exact H | intro E; apply Hne; symmetry; exact E].
+Qed.
+
+Lemma index_segments_adj : forall hp segs nodes adj n,
+  adj_get (snd (index_segments hp segs nodes adj)) n =
+  (fst (adj_get adj n) ++ (if hp then map snd (links_of n segs) else []),
+   snd (adj_get adj n) ++ map fst (links_of n segs)).
+Proof.
+  intros hp segs. induction segs as [|[[a b] s] t IH]; intros nodes adj n.
+  - simpl. destruct hp; rewrite !app_nil_r; destruct (adj_get adj n); reflexivity.
+  - cbn [index_segments]. rewrite IH. rewrite !add_neighbour_get.
+    cbn [links_of flat_map fst snd]. fold (links_of n t).
+    destruct (a =? n), (b =? n), hp; cbn [fst snd app map];
+      repeat rewrite <- app_assoc; cbn [app]; try rewrite app_nil_r; reflexivity.
+Qed.
+
+Lemma index_segments_adj_key : forall hp segs nodes adj n,
+  m_find Z.compare n (snd (index_segments hp segs nodes adj)) = None ->
+  m_find Z.compare n adj = None /\ links_of n segs = [].
+Proof.
+  intros hp segs. induction segs as [|[[a b] s] t IH]; intros nodes adj n H.
+  - split; [exact H | reflexivity].
+  - cbn [index_segments] in H. apply IH in H. destruct H as [H1 H2].
+    apply add_neighbour_key in H1. destruct H1 as [H1 Hb]. apply add_neighbour_key in H1. destruct H1 as [H1 Ha].
+    split; [exact H1|]. cbn [links_of flat_map fst snd]. fold (links_of n t).
+    apply Z.eqb_neq in Ha. apply Z.eqb_neq in Hb. rewrite Ha, Hb. exact H2.
+Qed.
+
+Lemma add_node_at_get : forall c' x m c n,
+  In n (nodes_get (add_node_at c' x m) c) <-> In n (nodes_get m c) \/ (n = x /\ c = c').
+Proof.
+  intros c' x m c n. unfold nodes_get, add_node_at.
+  destruct (cell_cmp c c') eqn:E.
+  - apply cell_cmp_eq in E. subst c'. rewrite (m_find_update_same cell_cmp_eq). rewrite zset_insert_In.
+    destruct (m_find cell_cmp c m); intuition.
+  - rewrite (m_find_update_other cell_cmp_eq); [|intro H; subst; rewrite (proj2 (cell_cmp_eq c' c') eq_refl) in E; discriminate].
+    split; [auto | intros [H | [_ H]]; [exact H | subst; rewrite (proj2 (cell_cmp_eq c' c') eq_refl) in E; discriminate]].
+  - rewrite (m_find_update_other cell_cmp_eq); [|intro H; subst; rewrite (proj2 (cell_cmp_eq c' c') eq_refl) in E; discriminate].
+    split; [auto | intros [H | [_ H]]; [exact H | subst; rewrite (proj2 (cell_cmp_eq c' c') eq_refl) in E; discriminate]].
+Qed.
+
+Lemma index_segments_nodes : forall hp segs nodes adj c n,
+  In n (nodes_get (fst (index_segments hp segs nodes adj)) c) <->
+  In n (nodes_get nodes c) \/
+  exists a b s, In ((a, b), s) segs /\ ((n = a /\ c = seg_hd s) \/ (n = b /\ c = seg_last s)).
+Proof.
+  intros hp segs. induction segs as [|[[a b] s] t IH]; intros nodes adj c n.
+  - simpl. split; [auto | intros [H | [a [b [s [[] _]]]]]; exact H].
+  - cbn [index_segments]. rewrite IH. rewrite !add_node_at_get. fold (seg_hd s). fold (seg_last s). split.
+    + intros [[[H | H] | H] | [a' [b' [s' [Hin H]]]]].
+      * left. exact H.
+      * right. exists a, b, s. split; [left; reflexivity | left; exact H].
+      * right. exists a, b, s. split; [left; reflexivity | right; exact H].
+      * right. exists a', b', s'. split; [right; exact Hin | exact H].
+    + intros [H | [a' [b' [s' [[Hin | Hin] H]]]]].
+      * left. left. left. exact H.
+      * inversion Hin. subst a' b' s'. destruct H as [H | H]; [left; left; right; exact H | left; right; exact H].
+      * right. exists a', b', s'. split; [exact Hin | exact H].
+Qed.
+
+Lemma index_segments_adj_nil : forall hp segs nodes adj,
+  snd (index_segments hp segs nodes adj) = [] -> segs = [] /\ adj = [].
+Proof.
+  intros hp segs. induction segs as [|[[a b] s] t IH]; intros nodes adj H; [split; [reflexivity | exact H]|].
+  cbn [index_segments] in H. apply IH in H. destruct H as [_ H]. exfalso.
+  unfold add_neighbour in H. exact (m_update_not_nil _ _ _ _ _ _ H).
+Qed.
+
+Lemma links_of_In : forall n segs m p,
+  In (m, p) (links_of n segs) <->
+  exists s, sg_prob s = p /\ (In ((n, m), s) segs \/ In ((m, n), s) segs).
+Proof.
+  intros n segs m p. unfold links_of. rewrite in_flat_map. split.
+  - intros [[[a b] s] [Hin H]]. cbn [fst snd] in H. apply in_app_or in H. destruct H as [H | H].
+    + destruct (a =? n) eqn:E; [|destruct H]. apply Z.eqb_eq in E. destruct H as [H | []]. inversion H. subst.
+      exists s. split; [reflexivity | left; exact Hin].
+    + destruct (b =? n) eqn:E; [|destruct H]. apply Z.eqb_eq in E. destruct H as [H | []]. inversion H. subst.
+      exists s. split; [reflexivity | right; exact Hin].
+  - intros [s [Hp [Hin | Hin]]]; eexists; (split; [exact Hin|]); cbn [fst snd]; apply in_or_app.
+    + left. rewrite Z.eqb_refl. left. rewrite Hp. reflexivity.
+    + right. rewrite Z.eqb_refl. left. rewrite Hp. reflexivity.
+Qed.
+
+(* ------------------------------------------------------------ loading: load *)
+
+Lemma load_spec : forall g fl lines ae net, load g fl lines ae = Ok net ->
+  exists hc hp consumed outs,
+    stream_has_columns fl = Ok (hc, hp, consumed) /\
+    sequence (map (record_segment g hc hp) (if consumed then tl lines else lines)) = Ok outs /\
+    nw_grid net = g /\
+    nw_segs net = emplace_all (kept outs) [] /\
+    (nw_nodes net, nw_adj net) = index_segments hp (nw_segs net) [] [] /\
+    (ae = false -> nw_segs net <> []).
+Proof.
+  intros g fl lines ae net. unfold load.
+  destruct (stream_has_columns fl) as [[[hc hp] consumed]|e]; cbn [bind fst snd]; [|discriminate].
+  rewrite load_records_spec.
+  destruct (sequence (map (record_segment g hc hp) (if consumed then tl lines else lines))) as [outs|e] eqn:Eseq;
+    cbn [bind]; [|discriminate].
+  intro H. exists hc, hp, consumed, outs. split; [reflexivity|]. split; [exact Eseq|].
+  remember (emplace_all (kept outs) []) as segs eqn:Es.
+  destruct (index_segments hp segs [] []) as [nodes adj] eqn:Ei. cbn [fst snd] in H.
+  destruct adj as [|x adj'].
+  - destruct ae; [|discriminate]. inversion H. cbn [nw_grid nw_segs nw_nodes nw_adj].
+    split; [reflexivity|]. split; [reflexivity|]. split; [symmetry; exact Ei | intro Hf; discriminate].
+  - inversion H. cbn [nw_grid nw_segs nw_nodes nw_adj].
+    split; [reflexivity|]. split; [reflexivity|]. split; [symmetry; exact Ei|].
+    intros _ Hs. rewrite Hs in Ei. simpl in Ei. inversion Ei.
+Qed.
+
+(* load fails exactly as follows *)
+Lemma load_rejects : forall g fl lines ae,
+  (forall e, stream_has_columns fl = Err e -> load g fl lines ae = Err e) /\
+  (forall hc hp consumed, stream_has_columns fl = Ok (hc, hp, consumed) ->
+     (forall e, sequence (map (record_segment g hc hp) (if consumed then tl lines else lines)) = Err e ->
+        load g fl lines ae = Err e) /\
+     (forall outs, sequence (map (record_segment g hc hp) (if consumed then tl lines else lines)) = Ok outs ->
+        kept outs = [] -> ae = false -> load g fl lines ae = Err RuntimeError)).
+Proof.
+  intros g fl lines ae. unfold load. split.
+  - intros e H. rewrite H. reflexivity.
+  - intros hc hp consumed H. rewrite H. cbn [bind fst snd]. rewrite load_records_spec. split.
+    + intros e He. rewrite He. reflexivity.
+    + intros outs Ho Hk Hae. rewrite Ho, Hk, Hae. reflexivity.
+Qed.
+
+(* --------------------------------------------- facts about loaded networks *)
+
+Definition loaded (net : network) : Prop := exists g fl lines ae, load g fl lines ae = Ok net.
+
+Lemma sequence_In : forall A (l : list (result A)) xs x,
+  sequence l = Ok xs -> In x xs -> In (Ok x) l.
+Proof.
+  intros A l. induction l as [|r t IH]; intros xs x H Hin.
+  - inversion H. subst. destruct Hin.
+  - cbn [sequence] in H. destruct r as [a|e]; cbn [bind] in H; [|discriminate].
+    destruct (sequence t) as [ys|e]; cbn [bind] in H; [|discriminate].
+    inversion H. subst xs. destruct Hin as [-> | Hin]; [left; reflexivity | right; eapply IH; [reflexivity | exact Hin]].
+Qed.
+
+Lemma kept_In : forall outs ks, In ks (kept outs) <-> In (Some ks) outs.
+Proof.
+  intros outs ks. unfold kept. rewrite in_flat_map. split.
+  - intros [[x|] [H1 H2]]; [destruct H2 as [-> | []]; exact H1 | destruct H2].
+  - intro H. exists (Some ks). split; [exact H | left; reflexivity].
+Qed.
+
+Lemma loaded_tables : forall net, loaded net ->
+  exists hp, (nw_nodes net, nw_adj net) = index_segments hp (nw_segs net) [] [] /\
+             (forall k s, In (k, s) (nw_segs net) -> wf_seg s).
+Proof.
+  intros net [g [fl [lines [ae H]]]]. apply load_spec in H.
+  destruct H as [hc [hp [consumed [outs [_ [Hseq [_ [Hsegs [Hidx _]]]]]]]]].
+  exists hp. split; [exact Hidx|].
+  intros k s Hin. rewrite Hsegs in Hin. apply emplace_all_In in Hin. destruct Hin as [Hin | Hin]; [destruct Hin|].
+  apply kept_In in Hin. pose proof (sequence_In _ _ _ _ Hseq Hin) as Hr.
+  apply in_map_iff in Hr. destruct Hr as [r [Hr _]]. apply record_segment_ok in Hr.
+  destruct Hr as [n1 [n2 [cost [prob [xs [_ [_ [_ [_ [_ [_ [_ [Hlen Ho]]]]]]]]]]]]].
+  destruct (cell_out_of_bbox g (pt_cell g (hd (0, 0)%Q xs)) || cell_out_of_bbox g (pt_cell g (last xs (0, 0)%Q)));
+    [discriminate|].
+  inversion Ho. unfold wf_seg, record_seg. cbn [sg_cells]. apply merged_cells_wf.
+  intro Hx. subst xs. simpl in Hlen. lia.
+Qed.
+
+Lemma adj_get_nil : forall n, adj_get [] n = ([], []).
+Proof. reflexivity. Qed.
+
+Lemma index_segments_no_key : forall hp segs nodes adj n,
+  m_find Z.compare n adj = None -> links_of n segs = [] ->
+  m_find Z.compare n (snd (index_segments hp segs nodes adj)) = None.
+Proof.
+  intros hp segs. induction segs as [|[[a b] s] t IH]; intros nodes adj n H0 Hn; [exact H0|].
+  cbn [index_segments]. cbn [links_of flat_map fst snd] in Hn. fold (links_of n t) in Hn.
+  destruct (a =? n) eqn:Ea; [discriminate|]. destruct (b =? n) eqn:Eb; [discriminate|].
+  apply IH; [|exact Hn]. unfold add_neighbour.
+  apply Z.eqb_neq in Ea. apply Z.eqb_neq in Eb.
+  rewrite (m_find_update_other zcmp_eq); [|intro; subst; contradiction].
+  rewrite (m_find_update_other zcmp_eq); [exact H0 | intro; subst; contradiction].
+Qed.
+
+Lemma loaded_adj : forall net, loaded net -> exists hp : bool, forall n,
+  (links_of n (nw_segs net) = [] -> adj_at net n = Err OutOfRange) /\
+  (links_of n (nw_segs net) <> [] ->
+     adj_at net n = Ok (if hp then map snd (links_of n (nw_segs net)) else @nil Q,
+                        map fst (links_of n (nw_segs net)))).
+Proof.
+  intros net Hl. destruct (loaded_tables net Hl) as [hp [Hidx _]]. exists hp. intro n.
+  assert (Hadj : nw_adj net = snd (index_segments hp (nw_segs net) [] [])) by (rewrite <- Hidx; reflexivity).
+  pose proof (index_segments_adj hp (nw_segs net) [] [] n) as Ha.
+  pose proof (index_segments_adj_key hp (nw_segs net) [] [] n) as Hk.
+  pose proof (index_segments_no_key hp (nw_segs net) [] [] n eq_refl) as Hz.
+  rewrite adj_get_nil in Ha. cbn [fst snd app] in Ha.
+  unfold adj_at. rewrite Hadj. unfold adj_get in Ha. split.
+  - intro Hnil. pose proof (Hz Hnil) as Hz'. unfold node in *. rewrite Hz'. reflexivity.
+  - intro Hne. destruct (m_find Z.compare n (snd (index_segments hp (nw_segs net) [] []))) as [r|] eqn:E.
+    + rewrite Ha. reflexivity.
+    + exfalso. apply Hne. apply Hk. reflexivity.
+Qed.
+
+Lemma loaded_nodes : forall net, loaded net -> forall c n,
+  In n (nodes_at net c) <->
+  exists a b s, In ((a, b), s) (nw_segs net) /\ ((n = a /\ c = seg_hd s) \/ (n = b /\ c = seg_last s)).
+Proof.
+  intros net Hl c n. destruct (loaded_tables net Hl) as [hp [Hidx _]].
+  pose proof (index_segments_nodes hp (nw_segs net) [] [] c n) as H.
+  rewrite <- Hidx in H. cbn [fst] in H. unfold nodes_at. unfold nodes_get in H. cbn [m_find] in H.
+  rewrite H. split; [intros [[] | H1]; exact H1 | intro H1; right; exact H1].
+Qed.
+
+Lemma endpoint_has_links : forall segs a b s,
+  In ((a, b), s) segs -> links_of a segs <> [] /\ links_of b segs <> [].
+Proof.
+  intros segs a b s Hin. split; intro H.
+  - assert (Hl : In (b, sg_prob s) (links_of a segs)) by (apply links_of_In; exists s; split; [reflexivity | left; exact Hin]).
+    rewrite H in Hl. exact Hl.
+  - assert (Hl : In (a, sg_prob s) (links_of b segs)) by (apply links_of_In; exists s; split; [reflexivity | right; exact Hin]).
+    rewrite H in Hl. exact Hl.
+Qed.
+
+(* a node with an entry: its neighbour list is not empty *)
+Definition good_node (net : network) (n : node) : Prop :=
+  exists l, connected net n = Ok l /\ l <> [].
+
+Lemma loaded_connected : forall net, loaded net -> forall n,
+  links_of n (nw_segs net) <> [] ->
+  connected net n = Ok (map fst (links_of n (nw_segs net))) /\ good_node net n.
+Proof.
+  intros net Hl n Hne. destruct (loaded_adj net Hl) as [hp Ha]. destruct (Ha n) as [_ H]. specialize (H Hne).
+  assert (Hc : connected net n = Ok (map fst (links_of n (nw_segs net)))) by (unfold connected; rewrite H; reflexivity).
+  split; [exact Hc|]. exists (map fst (links_of n (nw_segs net))). split; [exact Hc|].
+  destruct (links_of n (nw_segs net)); [contradiction | discriminate].
+Qed.
+
+Lemma loaded_node_good : forall net, loaded net -> forall c n, In n (nodes_at net c) -> good_node net n.
+Proof.
+  intros net Hl c n Hin. apply (loaded_nodes net Hl) in Hin. destruct Hin as [a [b [s [Hin H]]]].
+  destruct (endpoint_has_links _ _ _ _ Hin) as [Ha Hb].
+  destruct H as [[-> _] | [-> _]]; apply (loaded_connected net Hl); assumption.
+Qed.
+
+(* every neighbour is joined by a stored segment, over which the walk can go
+   either way, and is itself a node with neighbours; the edge has the
+   probability listed for it *)
+Lemma loaded_neighbour : forall net, loaded net -> forall n l m,
+  connected net n = Ok l -> In m l ->
+  (exists s, In ((n, m), s) (nw_segs net) \/ In ((m, n), s) (nw_segs net)) /\
+  (exists v, get_segment net n m = Ok v) /\ good_node net m.
+Proof.
+  intros net Hl n l m Hc Hin. destruct (loaded_adj net Hl) as [hp Ha]. destruct (Ha n) as [H0 H1].
+  destruct (links_of n (nw_segs net)) as [|x t] eqn:El.
+  { unfold connected in Hc. rewrite (H0 eq_refl) in Hc. discriminate. }
+  assert (Hne : x :: t <> []) by discriminate. specialize (H1 Hne).
+  unfold connected in Hc. rewrite H1 in Hc. cbn [bind snd] in Hc. inversion Hc. subst l.
+  apply in_map_iff in Hin. destruct Hin as [[m' p] [Hm Hin]]. cbn [fst] in Hm. subst m'.
+  rewrite <- El in Hin. apply links_of_In in Hin. destruct Hin as [s [_ Hs]].
+  split; [exists s; exact Hs|]. split.
+  - unfold get_segment. destruct Hs as [Hs | Hs].
+    + destruct (In_m_find_some _ _ _ cell_cmp_eq _ _ _ Hs) as [s' Hf]. rewrite Hf. eexists; reflexivity.
+    + destruct (m_find cell_cmp (n, m) (nw_segs net)); [eexists; reflexivity|].
+      destruct (In_m_find_some _ _ _ cell_cmp_eq _ _ _ Hs) as [s' Hf]. rewrite Hf. eexists; reflexivity.
+  - destruct Hs as [Hs | Hs]; destruct (endpoint_has_links _ _ _ _ Hs) as [Hx Hy];
+      apply (loaded_connected net Hl); assumption.
+Qed.
+
+(* both directions: a stored segment is found from either end, reversed from
+   the far end, with the same cost; each end lists the other as a neighbour;
+   the end cells hold the end nodes *)
+Lemma both_directions : forall net a b s, loaded net ->
+  m_find cell_cmp (a, b) (nw_segs net) = Some s ->
+  get_segment net a b = Ok (mkview (sg_cells s) s) /\
+  (m_find cell_cmp (b, a) (nw_segs net) = None -> get_segment net b a = Ok (mkview (rev (sg_cells s)) s)) /\
+  (exists la lb, connected net a = Ok la /\ In b la /\ connected net b = Ok lb /\ In a lb) /\
+  In a (nodes_at net (seg_hd s)) /\ In b (nodes_at net (seg_last s)).
+Proof.
+  intros net a b s Hl Hf. split; [|split; [|split]].
+  - unfold get_segment. rewrite Hf. reflexivity.
+  - intro Hn. unfold get_segment. rewrite Hn, Hf. reflexivity.
+  - pose proof (m_find_In cell_cmp_eq _ _ _ Hf) as Hin.
+    destruct (endpoint_has_links _ _ _ _ Hin) as [Ha Hb].
+    destruct (loaded_connected net Hl a Ha) as [Hca _]. destruct (loaded_connected net Hl b Hb) as [Hcb _].
+    eexists. eexists. split; [exact Hca|]. split.
+    + apply in_map_iff. exists (b, sg_prob s). split; [reflexivity|]. apply links_of_In. exists s. split; [reflexivity | left; exact Hin].
+    + split; [exact Hcb|]. apply in_map_iff. exists (a, sg_prob s). split; [reflexivity|]. apply links_of_In. exists s. split; [reflexivity | right; exact Hin].
+  - pose proof (m_find_In cell_cmp_eq _ _ _ Hf) as Hin. split; apply (loaded_nodes net Hl); exists a, b, s; (split; [exact Hin|]).
+    + left. split; reflexivity.
+    + right. split; reflexivity.
 Qed.
